@@ -27,6 +27,9 @@
   8. "views of different parent screens refuse to combine" → `C14_foreign_refused`.
   9. "all finite compositions of subset / combine / concat / invert / to_screen" → `C14_expr_sound`, `C14_denote_algebra`,
          `C14_view_derived` (derived properties of reachable views).
+  Regression (not a clause), in Props/C14Regress.lean: S7-C14 `S7_C14_layout_test_accepts_foreign` (against `C14_combine_defined_iff`), S5-C14
+         `S5_C14_putmask_counterexample` (against `C14_nested_subset_exact`), S6-C14 `S6_C14_cached_unique_counterexample`, S4-C14
+         `S4_C14_stale_plate_table_counterexample` (with the general `pnamesViaPmap_of_consistent`).
   harness-only: aliasing / in-place writes (item 2); numpy boolean indexing, np.where scatter and np.unique(axis=0, return_index) agreeing with
          maskFilter / scatter / first occurrence (tie); `single_treatment_effects` values (float means; `C14_attr_generic` covers the row selection).
 -/
